@@ -12,6 +12,7 @@ import itertools
 import re
 
 from mc import cells as C
+from mc import repeat
 from mc.runner import Acc, Report
 
 LEVEL = "model_checking"
@@ -283,7 +284,7 @@ def shard(args):
         for t in CR_TEXTS:
             for spec in C.cuts(t, max_runs=2):
                 check_value(acc, spec, thorough)
-    for si, spec in enumerate(C.exotic_specs() + C.huge_specs()):
+    for si, spec in enumerate(C.exotic_specs() + C.huge_specs() + C.scale_specs(thorough)[::3]):
         if si % nshards == idx:
             check_value(acc, spec, thorough)
     return acc.export()
@@ -291,6 +292,7 @@ def shard(args):
 
 def run(ctx):
     rep = Report()
+    repeat.run_into(ctx, rep, "C15")
     ns = 64 if not ctx.thorough else 256
     for d in ctx.pmap(shard, [(ctx.tier, ctx.seed, i, ns) for i in range(ns)]):
         rep.merge(d)
